@@ -23,7 +23,46 @@ def _class(b):
     return (len(b["par"]), b["r1"]["st"], b["r1"]["err"], b["r2"]["st"], b["r2"]["err"])
 
 
-def _select(rng, behs, cap):
+def _features(b):
+    """limit / kind features of a behaviour; the selection guarantees several behaviours per feature in EVERY tier"""
+    f = set()
+    par, sig, st = b["par"], b["sig"], b["r1"]["st"]
+    f.add("shape %s" % par)
+    f.add("class %s %s" % (st, b["r1"]["err"]))
+    ex = st in ("success", "failed")
+    for i, p in enumerate(b["prog"]):
+        me = i + 1
+        nyc = {}
+        for x in p:
+            op = x["op"]
+            if op == "W" and x["acc"] != me:
+                op = "WP"
+            if ex:
+                f.add("op %s in %s" % (op, st))
+            if op in ("YC", "YP") and ex:
+                f.add("yield with %d buckets (%s)" % (len(x["bs"]), st))
+            if op == "YC":
+                nyc[x["c"]] = nyc.get(x["c"], 0) + 1
+                if ex:
+                    f.add("yield to child number %d (%s)" % (x["c"], st))
+            if op == "VP" and par[i] > 1 and ex:
+                root_has, parent_has = x["k"] in sig[0], x["k"] in sig[par[i] - 1]
+                if root_has != parent_has:
+                    f.add("VERIFY_PARENT tells root from direct parent (key signed %s only) %s" % ("root" if root_has else "parent", b["r1"]["err"] or "ok"))
+            if op == "VP" and ex:
+                f.add("VERIFY_PARENT key %s %s" % ("of parent" if x["k"] in sig[par[i] - 1] else "not of parent", b["r1"]["err"] or "ok"))
+            if op in ("W", "WP") and ex:
+                f.add("withdraw amount %d" % x["a"])
+        if ex and nyc and max(nyc.values()) >= 2:
+            f.add("several yields over one edge (%s)" % st)
+    if st == "rejected" and sum(len(p) for p in b["prog"]) >= 5:
+        f.add("static rejection of a long program %s" % b["r1"]["err"])
+    if st == "success" and b["r2"]["st"] != "rejected":
+        f.add("success without subintents re-executed")
+    return f
+
+
+def _select(rng, behs, cap, per_feature=6):
     """distinct behaviours; all outcome classes kept, executed behaviours preferred over static rejections"""
     uniq = {}
     for b in behs:
@@ -35,7 +74,18 @@ def _select(rng, behs, cap):
     for b in behs:
         by.setdefault(_class(b), []).append(b)
     out, seen = [], set()
-    # round-robin over the classes; static rejections may fill at most a quarter
+    # first: several behaviours for every limit / kind feature (never subsampled away, whatever the tier or seed)
+    have = {}
+    for b in behs:
+        fs = [f for f in _features(b) if have.get(f, 0) < per_feature]
+        if fs:
+            out.append(b)
+            seen.add(_key(b))
+            for f in _features(b):
+                have[f] = have.get(f, 0) + 1
+    for c in by:
+        by[c] = [b for b in by[c] if _key(b) not in seen]
+    # then round-robin over the classes; static rejections may fill at most a quarter
     rej_cap = cap // 4
     nrej = 0
     idx = 0
@@ -54,7 +104,7 @@ def _select(rng, behs, cap):
         idx += 1
         if not progress:
             break
-    return out, len(behs)
+    return out, len(behs), have
 
 
 def _replay(ctx, behs, res, initbal, procs=4, observe=False):
@@ -106,8 +156,8 @@ def X01(ctx):
     # S (+ behaviours): exhaustive instances, every invariant / action property checked in every state,
     # every finished behaviour printed
     runs = [
-        dict(ScenName='"small"', Res="{1}", Amts="{1, 2}", MaxLen=3, MaxTotal=5, MaxLive=1, MaxYield=2, InitBal=2),
-        dict(ScenName='"chain"', Res="{1}", Amts="{1}", MaxLen=3, MaxTotal=5, MaxLive=1, MaxYield=2, InitBal=2),
+        dict(ScenName='"small"', Res="{1}", Amts="{1, 2}", MaxLen=4, MaxTotal=5, MaxLive=1, MaxYield=2, InitBal=2),
+        dict(ScenName='"quick2"', Res="{1}", Amts="{1}", MaxLen=3, MaxTotal=5, MaxLive=1, MaxYield=2, InitBal=2),
     ] if q else [
         dict(ScenName='"small"', Res="{1}", Amts="{1, 2}", MaxLen=4, MaxTotal=6, MaxLive=1, MaxYield=2, InitBal=2),
         dict(ScenName='"mid"', Res="{1}", Amts="{1}", MaxLen=3, MaxTotal=6, MaxLive=1, MaxYield=2, InitBal=2),
@@ -138,8 +188,11 @@ def X01(ctx):
     caps = ([500, 400, 900] if q else [9000, 9000, 6000, 16000])
     distinct_all = replayed = steps = executed = 0
     classes = set()
+    features = {}
     for (b, nres, ib), cap in zip(pools, caps):
-        sel, nd = _select(rng, b, cap)
+        sel, nd, have = _select(rng, b, cap)
+        for f, n in have.items():
+            features[f] = features.get(f, 0) + n
         distinct_all += nd
         mm, st, nmm = _replay(ctx, sel, nres, ib, procs=4 if q else 6)
         steps += st
@@ -163,6 +216,18 @@ def X01(ctx):
             if x["r1"]["st"] == "failed" and x["r1"]["err"] == "VerifyParentFailed":
                 ctx.sample({"behaviour": x}, cap=5)
                 break
+    # non-vacuity of the replayed set: every instruction kind in a successful behaviour, every error / rejection
+    # class, and the behaviours that tell the direct parent from the root for VERIFY_PARENT
+    need = ["op %s in success" % o for o in ("W", "WP", "T", "TA", "R", "DB", "D", "AW", "YC", "YP", "VP")] + \
+           ["class failed %s" % e for e in ("Unauthorized", "VaultInsufficientBalance", "WorktopInsufficientBalance", "WorktopAssertionFailed",
+                                            "DropNonEmptyWorktop", "VerifyParentFailed")] + \
+           ["class rejected MismatchingYieldChildAndYieldParentCounts", "class rejected SubintentDoesNotEndWithYieldToParent", "class success ",
+            "VERIFY_PARENT tells root from direct parent (key signed root only) VerifyParentFailed",
+            "VERIFY_PARENT tells root from direct parent (key signed parent only) ok", "yield to child number 2 (success)",
+            "several yields over one edge (success)"]
+    missing = [f for f in need if not features.get(f)]
+    if missing:
+        raise ToolError("the replayed behaviours do not exercise: %s" % missing)
     ctx.cov["traces_validated_against_impl"] += replayed
     ctx.cov["evaluations"] += steps
     # B: binding self-test - wrong expectations must be reported, one per kind
@@ -180,7 +245,7 @@ def X01(ctx):
     core.log("subintents: %d behaviours replayed (%d executed), binding self-test rejected %d corrupted expectations" % (replayed, executed, len(cor)))
     return {"exhaustive": False, "distinct_nontrivial": executed, "behaviours_generated": total_beh, "distinct_behaviours": distinct_all,
             "behaviours_replayed": replayed, "outcome_classes_replayed": sorted("%s %s" % c for c in classes),
-            "corrupted_expectations_reported": len(cor),
+            "corrupted_expectations_reported": len(cor), "features_guaranteed": len(features),
             "rule": "S: TLC explores every program (lazy, just-in-time program extension) of the subintent processor model within the "
                     "bounds %s with the full instruction alphabet (withdraw from own / parent's account, take, take-all, return, deposit "
                     "bucket / worktop, assert, YIELD_TO_CHILD/PARENT with bucket sets, VERIFY_PARENT, closing without a final yield, "
@@ -191,6 +256,9 @@ def X01(ctx):
                     "outcome classes (static rejections at most a quarter) and replayed as real notarized V2 transactions "
                     "(add_signed_child, fee locked from the faucet): round 1, the identical transaction again, and the same signed "
                     "subintents under a fresh root; outcome class, error class and all account balances from the DB are compared. "
+                    "Before the round-robin fill, 6 behaviours per limit / kind feature are taken (every op kind in a success and in a "
+                    "failure, yields with 0/1/2 buckets, repeated yields over one edge, VERIFY_PARENT keys that tell the direct parent "
+                    "from the root, withdraw amounts, every shape, every class) and the run fails if a required one is absent. "
                     "distinct_nontrivial = distinct replayed behaviours whose round 1 was executed (success or runtime failure), "
                     "static rejections not counted" % json.dumps([{k: v for k, v in c.items()} for c in runs])}
 
